@@ -214,6 +214,74 @@ theorem eval_true_noflag {maxDepth d : Nat} {V : List N} {e : Expr N} {o : Out}
   | diff b s ob os bf _ _ _ _ =>
     intro c t ho
     exact (exclR_true bf ob os c t ho).1
+  | diff_ideal b s ob os bf _ _ _ _ =>
+    intro c t ho
+    exact (exclR_true bf ob (clearFlag os) c t ho).1
+
+/-- `exclusion`, given what is known about its two operands: the base outcome is sound relative to the
+path; the subtract outcome, when it is an untainted `true` or an untainted unflagged `false`, is right
+about the global semantics.  (A flagged `false` from the subtract operand taints the result.) -/
+theorem diff_sound (hc : Coherent sys I) {V : List N} {b s : Expr N} {ob os : Out} (bf : Bool)
+    (ihb : Sound sys I V b ob) (nfb : ∀ c t, ob = .ok true c t → c = false)
+    (nfs : ∀ c t, os = .ok true c t → c = false)
+    (hsT : ∀ c, os = .ok true c false → HoldsD sys I [] s)
+    (hsF : os = .ok false false false → ¬ HoldsP sys I [] s) :
+    Sound sys I V (.diff b s) (exclR bf ob os) := by
+    generalize hr : exclR bf ob os = r
+    cases r with
+    | err k => trivial
+    | ok a c t =>
+      cases t with
+      | true => exact sound_taint sys I
+      | false =>
+        cases a with
+        | true =>
+          obtain ⟨_, tb, ts, rfl, rfl, ht⟩ := exclR_true bf ob os c false hr
+          have htb : tb = false := by cases tb <;> cases ts <;> simp at ht <;> rfl
+          have hts : ts = false := by cases tb <;> cases ts <;> simp at ht <;> rfl
+          subst htb; subst hts
+          exact (sound_true sys I).mpr (.diff ((sound_true sys I).mp ihb)
+            (((hc s).1).mpr (hsF rfl)))
+        | false =>
+          rcases exclR_false bf ob os c false hr with ⟨a, rfl, hd⟩ | ⟨a, ts, rfl, hd, ht⟩
+          · -- decided by the base operand
+            have ha : a = false := by
+              cases a with
+              | false => rfl
+              | true =>
+                have := nfb c false rfl
+                rcases hd with hd | hd
+                · rw [this] at hd; exact absurd hd (by simp)
+                · exact absurd hd (by simp)
+            subst ha
+            have hrel := sound_false_rel sys I V _ c ihb
+            cases c with
+            | false =>
+              refine (sound_false_noflag sys I).mpr ?_
+              intro hp
+              cases hp with
+              | diff hb _ => exact (sound_false_noflag sys I).mp ihb hb
+            | true =>
+              refine (sound_false_flag sys I).mpr ?_
+              intro hp
+              cases hp with
+              | diff hb _ => exact hrel hb
+          · -- decided by the subtracted operand: untainted only if it is `true`
+            have ha : a = true := by
+              cases a with
+              | true => rfl
+              | false => simp at ht
+            subst ha
+            simp at ht
+            subst ht
+            have hcf := nfs c false rfl
+            subst hcf
+            have hsD : HoldsD sys I [] s := hsT false rfl
+            refine (sound_false_noflag sys I).mpr ?_
+            intro hp
+            cases hp with
+            | diff _ hn => exact ((hc s).2.mp hn) hsD
+
 
 /-- **Main theorem.** Every outcome of every evaluation — any schedule, any depth limit, any path —
 is sound for a coherent (stratified) interpretation. -/
@@ -365,60 +433,36 @@ theorem eval_sound (hc : Coherent sys I) {maxDepth d : Nat} {V : List N} {e : Ex
               cases hp with
               | and hall => exact hrel (hall _ (List.getElem_mem h1))
   | @diff d V b s ob os bf hevb hevs ihb ihs =>
-    generalize hr : exclR bf ob os = r
-    cases r with
-    | err k => trivial
-    | ok a c t =>
-      cases t with
-      | true => exact sound_taint sys I
-      | false =>
-        cases a with
+    refine diff_sound sys I hc bf ihb (eval_true_noflag sys hevb) (eval_true_noflag sys hevs) ?_ ?_
+    · intro c ho; subst ho; exact holdsD_to_global sys I V s ((sound_true sys I).mp ihs)
+    · intro ho; subst ho; exact (sound_false_noflag sys I).mp ihs
+  | @diff_ideal d V b s ob os bf hevb hevs ihb ihs =>
+    refine diff_sound sys I hc bf ihb (eval_true_noflag sys hevb) ?_ ?_ ?_
+    · intro c t ho
+      cases os with
+      | err k => simp [clearFlag] at ho
+      | ok a' c' t' =>
+        cases a' with
+        | true => simp [clearFlag] at ho; obtain ⟨rfl, rfl⟩ := ho; exact eval_true_noflag sys hevs _ _ rfl
+        | false => simp [clearFlag] at ho
+    · intro c ho
+      cases os with
+      | err k => simp [clearFlag] at ho
+      | ok a' c' t' =>
+        cases a' with
         | true =>
-          obtain ⟨_, tb, ts, rfl, rfl, ht⟩ := exclR_true bf ob os c false hr
-          have htb : tb = false := by cases tb <;> cases ts <;> simp at ht <;> rfl
-          have hts : ts = false := by cases tb <;> cases ts <;> simp at ht <;> rfl
-          subst htb; subst hts
-          exact (sound_true sys I).mpr (.diff ((sound_true sys I).mp ihb)
-            (((hc s).1).mpr ((sound_false_noflag sys I).mp ihs)))
+          simp [clearFlag] at ho; obtain ⟨rfl, rfl⟩ := ho
+          exact (sound_true sys I).mp ihs
+        | false => simp [clearFlag] at ho
+    · intro ho
+      cases os with
+      | err k => simp [clearFlag] at ho
+      | ok a' c' t' =>
+        cases a' with
+        | true => simp [clearFlag] at ho
         | false =>
-          rcases exclR_false bf ob os c false hr with ⟨a, rfl, hd⟩ | ⟨a, ts, rfl, hd, ht⟩
-          · -- decided by the base operand
-            have ha : a = false := by
-              cases a with
-              | false => rfl
-              | true =>
-                have := eval_true_noflag sys hevb c false rfl
-                rcases hd with hd | hd
-                · rw [this] at hd; exact absurd hd (by simp)
-                · exact absurd hd (by simp)
-            subst ha
-            have hrel := sound_false_rel sys I V _ c ihb
-            cases c with
-            | false =>
-              refine (sound_false_noflag sys I).mpr ?_
-              intro hp
-              cases hp with
-              | diff hb _ => exact (sound_false_noflag sys I).mp ihb hb
-            | true =>
-              refine (sound_false_flag sys I).mpr ?_
-              intro hp
-              cases hp with
-              | diff hb _ => exact hrel hb
-          · -- decided by the subtracted operand: untainted only if it is `true`
-            have ha : a = true := by
-              cases a with
-              | true => rfl
-              | false => simp at ht
-            subst ha
-            simp at ht
-            subst ht
-            have hcf := eval_true_noflag sys hevs c false rfl
-            subst hcf
-            have hsD : HoldsD sys I [] s := holdsD_to_global sys I V s ((sound_true sys I).mp ihs)
-            refine (sound_false_noflag sys I).mpr ?_
-            intro hp
-            cases hp with
-            | diff _ hn => exact ((hc s).2.mp hn) hsD
+          simp [clearFlag] at ho; subst ho
+          exact sound_false_rel sys I [] s c' ihs
 end
 
 /-- Top level (`V = []`, what `Check` returns): an untainted decision is the semantics. -/
